@@ -170,7 +170,7 @@ fn stats_problems(s: &ActorSnapshot, scale: &mut f64) -> Vec<(String, String)> {
     v
 }
 
-const OPS: [&str; 5] = ["find_node", "get_immutable", "get_peers", "get_signed_peers", "put_immutable"];
+const OPS: [&str; 6] = ["find_node", "get_immutable", "get_peers", "get_signed_peers", "put_immutable", "six-minutes-pass"];
 
 /// Target 3 is the one nobody answers lookups for (its lookups have candidates and no responder).
 fn targets(own: Id20) -> [Id20; 4] {
@@ -209,6 +209,15 @@ fn history(h: &[(usize, usize)], out: &mut Partial) {
     let mut scale = 0f64;
     let mut problems: Vec<(String, String)> = stats_problems(&w.snapshot(a), &mut scale);
     for (step, (op, t)) in h.iter().enumerate() {
+        if *op == 5 {
+            // six idle minutes: every write token the node was given expires (5 minutes)
+            let hz = w.now + 6 * MIN;
+            w.run_until(hz, |w, ev| {
+                pump(w, &mut net, ev);
+                false
+            });
+            continue;
+        }
         let call = match op {
             0 => w.call_find_node(a, ts[*t].into()),
             1 => w.call_get_immutable(a, ts[*t].into()),
@@ -554,6 +563,24 @@ fn run(tier: Tier, shard: usize, nshards: usize, _seed: u64) -> Partial {
                         _ => vec![(o1, 3), (o2, 3), *x],
                     };
                     out.add("histories_with_an_unanswered_lookup", 1);
+                    super::guard_dead_actor(&mut out, "stats-history", json!({"part": "c", "history": h.iter().map(|(o, t)| vec![*o, *t]).collect::<Vec<_>>()}), |out| history(&h, out));
+                }
+            }
+        }
+    }
+    // (c+) the same target again after the tokens of its cached lookup have expired
+    for t in 0..3usize {
+        for o1 in 0..5usize {
+            for o2 in 0..5usize {
+                for third in [None, Some(1usize), Some(4)] {
+                    if !mine() {
+                        continue;
+                    }
+                    let mut h = vec![(o1, t), (5, 0), (o2, t)];
+                    if let Some(o3) = third {
+                        h.push((o3, (t + 1) % 3));
+                    }
+                    out.add("histories_across_token_expiry", 1);
                     super::guard_dead_actor(&mut out, "stats-history", json!({"part": "c", "history": h.iter().map(|(o, t)| vec![*o, *t]).collect::<Vec<_>>()}), |out| history(&h, out));
                 }
             }
